@@ -235,6 +235,15 @@ def identifier_folding(ctx):
                 return leaves(e.elt, depth)
             if isinstance(e, ast.Name) and e.id in assigned and depth < 4:
                 return leaves(assigned[e.id], depth + 1)
+            if isinstance(e, ast.GeneratorExp) and not any(
+                    g_.ifs for g_ in e.generators):
+                return leaves(e.elt, depth)
+            if isinstance(e, ast.Call) and dotted(e.func) in (
+                    'list', 'tuple') and len(e.args) == 1:
+                return leaves(e.args[0], depth)
+            if isinstance(e, ast.Call) and dotted(e.func) == 'map' and \
+                    e.args and dotted(e.args[0]) == 'str.lower':
+                return []
             return [e]
         unfolded = []
         rets = [r for r in ast.walk(f.node) if isinstance(r, ast.Return)
